@@ -14,7 +14,7 @@ from props import c12 as C12       # Debug text -> generic tree words (the encod
 ID = "C13"
 DESIGN_REF = "DESIGN.md section 5, C13; design/C13.md"
 LEAN_TARGETS = ["PV.C13.Thm", "PV.C13.ParsedThm", "PV.C13.SpansThm", "PV.C13.SpansLexer", "PV.C13.CrlfStep",
-                "PV.C13.CrlfClear"]
+                "PV.C13.CrlfClear", "PV.C13.FStrThm"]
 DRIVER = "drv_c13"
 HARNESS = {"bin": "pvh_c13", "features": "default"}
 THEOREMS = [
@@ -59,6 +59,18 @@ THEOREMS = [
     "PV.C13.parsed_tree_srcOrdered_full_fails",
     "PV.C13.fstring_findings_reproduced",
     "PV.C13.bom_tokenless_module_all_ranges",
+    # f-strings one level deep (round of 2026-09-30, third part)
+    "PV.C13.fstr_pieces_ordered",
+    "PV.C13.strings_single_fstr_jOrd",
+    "PV.C13.ow_joined",
+    "PV.C13.single_fstr_token_walkable",
+    "PV.C13.nw_joined",
+    "PV.C13.F.srcOrdered_of_ordM",
+    "PV.C13.fordM_srcOrdered",
+    "PV.C13.fordM_locations_eq_spec",
+    "PV.C13.fordM_linear_eq_random",
+    "PV.C13.fstr_concat_not_fordM",
+    "PV.C13.fstr_crlf_not_tied",
     # OffsOk (output) derived from SpansOk (input: the lexer's token spans)
     "PV.C13.toTree_allOff",
     "PV.C13.rangesOk_of_tokens",
